@@ -144,14 +144,14 @@ func LuaL_hassyserror(L *LState) Int {
 	return 0
 }
 func LuaL_set_hardforkversion(L *LState, v Int) { L.HardFork = v }
-func LuaL_hardforkversion(L *LState) Int       { return L.HardFork }
-func LuaL_set_service(L *LState, s Int)        { L.Service = s }
-func Vm_is_hardfork(L *LState, v Int) bool     { return L.HardFork >= v }
-func Vm_instcount(L *LState) Int               { return L.InstCount }
-func Vm_setinstcount(L *LState, n Int)         { L.InstCount = n }
-func Lua_gasget(L *LState) Ulonglong           { return Ulonglong(L.Gas) }
-func Lua_gasset(L *LState, g Ulonglong)        { L.Gas = uint64(g) }
-func Vm_set_timeout_hook(L *LState)            {}
+func LuaL_hardforkversion(L *LState) Int        { return L.HardFork }
+func LuaL_set_service(L *LState, s Int)         { L.Service = s }
+func Vm_is_hardfork(L *LState, v Int) bool      { return L.HardFork >= v }
+func Vm_instcount(L *LState) Int                { return L.InstCount }
+func Vm_setinstcount(L *LState, n Int)          { L.InstCount = n }
+func Lua_gasget(L *LState) Ulonglong            { return Ulonglong(L.Gas) }
+func Lua_gasset(L *LState, g Ulonglong)         { L.Gas = uint64(g) }
+func Vm_set_timeout_hook(L *LState)             {}
 func Vm_set_count_hook(L *LState, n Int) {
 	if L != nil {
 		L.InstLimit = n
@@ -200,15 +200,15 @@ func Vm_pcall(L *LState, nargs Int, nret *Int) *Char {
 }
 
 // the value stack: only what the Go side pushes is recorded
-func push(L *LState, v interface{})             { L.Stack = append(L.Stack, v) }
+func push(L *LState, v interface{})                { L.Stack = append(L.Stack, v) }
 func Lua_pushlstring(L *LState, s *Char, n Size_t) { push(L, GoStringN(s, Int(n))) }
-func Lua_pushstring(L *LState, s *Char)         { push(L, GoString(s)) }
-func Lua_pushinteger(L *LState, v Lua_Integer)  { push(L, int64(v)) }
-func Lua_pushnumber(L *LState, v Double)        { push(L, float64(v)) }
-func Lua_pushboolean(L *LState, v Int)          { push(L, v != 0) }
-func Lua_pushnil(L *LState)                     { push(L, nil) }
-func Lua_createtable(L *LState, narr, nrec Int) { push(L, "table") }
-func Lua_gettop(L *LState) Int                  { return Int(len(L.Stack)) }
+func Lua_pushstring(L *LState, s *Char)            { push(L, GoString(s)) }
+func Lua_pushinteger(L *LState, v Lua_Integer)     { push(L, int64(v)) }
+func Lua_pushnumber(L *LState, v Double)           { push(L, float64(v)) }
+func Lua_pushboolean(L *LState, v Int)             { push(L, v != 0) }
+func Lua_pushnil(L *LState)                        { push(L, nil) }
+func Lua_createtable(L *LState, narr, nrec Int)    { push(L, "table") }
+func Lua_gettop(L *LState) Int                     { return Int(len(L.Stack)) }
 func Lua_settop(L *LState, idx Int) {
 	n := int(idx)
 	if n < 0 {
